@@ -20,6 +20,7 @@ RULE = ('EconSpecs (1-2 zones, with/without external sector, so one or many coun
         'definitions keyed by sector object or full code string, initial conditions keyed by full code or numeric ID; 0-3 '
         'throw-away models are built first to shift the process-wide ID counter. Non-trivial: at least one name requested '
         'before full codes exist and embedded outside the requesting sector. Distinct: sha1 of the spec.')
+RULE = RULE + (' Input shapes added after the seeded-change rounds (DESIGN.md section 8): ' + "names embedded in the external sector's XR / FX blocks, two placeholders in one model-level equation, the external sector created last of all after a LogInfo() dump, cross rates requested ahead of main().")
 ASSUMPTIONS = [
     'local variable names are not k and do not shadow a function they call (a local variable named t IS generated)',
     'valuation check uses Python eval on both the sector-local and the emitted right-hand side with the same values',
